@@ -7,6 +7,12 @@ FnCnaryXFilter   parx_filter and chr_x_filter, whole functions read per row: the
                  `self.parx_filter(genome_build=...)` a boolean input that the theorem instantiates with the generated
                  parx_filter itself                                           (C15_source_parx_filter, C15_source_chr_x_filter)
 FnCnaryYFilter   pary_filter and chr_y_filter, likewise                       (C15_source_pary_filter, C15_source_chr_y_filter)
+FnCnaryMood      compare_to_auto (nested in compare_sex_chromosomes), the WHOLE function: try / except ValueError / else around
+                 scipy's median_test (translator construct `tries`: whether the guarded call raises is an input of type EXC),
+                 `if stat == 0 and 0 in cont: stat = None`, the weighted / plain |difference of medians|
+                                                                              (C15_source_mood_stat, C15_source_med_diff)
+FnCnaryChrom     compare_chrom (nested), the WHOLE function: which shift goes to which call of compare_to_auto, the unpacking,
+                 the ratio with the 0.01 floor and its fallback               (C15_source_male_lr)
 
 Mutations tried on a scratch copy (tools/mut_fn.sh; KILLED = the named Proofs file no longer compiles, REFUSED = the
 translator refuses the module, which the check reports as a broken tie):
@@ -15,6 +21,12 @@ translator refuses the module, which the check reports as a broken tie):
   FnCnaryYFilter  `y &= ~self.pary_filter(..)` -> `y |= ~...` KILLED ; PAR2Y looked up as "PAR2X" REFUSED (unsupported
                   expression Subscript: the keyed input is gone) ; `f = self.chromosome == self.chr_y_label` -> `chr_x_label`
                   REFUSED (unknown attribute self.chr_x_label)
+  FnCnaryMood     `stat == 0 and 0 in cont` -> `or` KILLED ; `stat = None` -> `stat = 0.0` KILLED ; `abs(np.median(auto_l) -
+                  np.median(vals))` without abs KILLED ; `if use_weight:` -> `if not use_weight:` KILLED ; `except ValueError`
+                  -> `except TypeError` REFUSED (the handler catches TypeError, the spec declares ValueError)
+  FnCnaryChrom    male call given `vals + female_shift` REFUSED (the keyed input is gone) ; `female_stat / max(male_stat, 0.01)`
+                  -> `male_stat / max(female_stat, 0.01)` KILLED ; `is not None and` -> `or` REFUSED (argument of type OQ
+                  where Q is expected)
 """
 
 _ROW = [('self.chromosome', 'S', 'chromosome'), ('self.start', 'Z', 'start'), ('self.end', 'Z', 'end_')]
@@ -38,6 +50,9 @@ def _chr_filter(name, coq, label, par_call):
                 ret='B')
 
 
+_MT = "median_test(auto_l, vals, ties='ignore', lambda_='log-likelihood')"
+_CSC = 'CopyNumArray.compare_sex_chromosomes.'
+
 MODULES = {
     'FnCnaryXFilter': ('cnvlib/cnary.py', [
         _par_filter('parx_filter', 'fn_parx_filter', 'chr_x_label', 'PAR1X', 'PAR2X'),
@@ -46,5 +61,33 @@ MODULES = {
     'FnCnaryYFilter': ('cnvlib/cnary.py', [
         _par_filter('pary_filter', 'fn_pary_filter', 'chr_y_label', 'PAR1Y', 'PAR2Y'),
         _chr_filter('chr_y_filter', 'fn_chr_y_filter', 'chr_y_label', 'self.pary_filter(genome_build=diploid_parx_genome)'),
+    ]),
+    # compare_to_auto, the WHOLE nested function: the try / except ValueError / else around scipy's median_test (whether
+    # it raises is the input `raised`, its four results are inputs; `cont`, the 2x2 table, is only ever asked `0 in cont`,
+    # an input of its own), the `stat == 0 and 0 in cont` rule, the weighted / plain difference of medians (the four
+    # medians are inputs).  `stat` is unbound before the try: init None.
+    'FnCnaryMood': ('cnvlib/cnary.py', [
+        dict(name=_CSC + 'compare_to_auto', coq='fn_compare_to_auto', py_params=['vals', 'weights'],
+             tries=[dict(first='stat, _p, _med, cont = median_test(', raises='ValueError', param='raised')],
+             init=[('stat', 'OQ', 'None')],
+             params=[('raised', 'EXC'), (_MT + '[0]', 'Q', 'mt_stat'), (_MT + '[1]', 'Q', 'mt_p'), (_MT + '[2]', 'Q', 'mt_med'),
+                     (_MT + '[3]', 'LZ', 'mt_cont'), ('0 in cont', 'B', 'zero_cell'), ('use_weight', 'B'),
+                     ('descriptives.weighted_median(auto_l, auto_w)', 'Q', 'wmed_auto'),
+                     ('descriptives.weighted_median(vals, weights)', 'Q', 'wmed_vals'),
+                     ('np.median(auto_l)', 'Q', 'med_auto'), ('np.median(vals)', 'Q', 'med_vals')],
+             ret=['OQ', 'Q']),
+    ]),
+    # compare_chrom, the WHOLE nested function: the two calls of compare_to_auto (female shift first, male shift second;
+    # each result unpacked as e[0], e[1]) and the ratio.  `a is not None and b is not None` narrows only its first name in
+    # the translator, so male_stat is read as a number plus the boolean `male_stat is not None` (as in cnary.py's FnCnarySex).
+    'FnCnaryChrom': ('cnvlib/cnary.py', [
+        dict(name=_CSC + 'compare_chrom', coq='fn_compare_chrom_whole',
+             py_params=['vals', 'weights', 'female_shift', 'male_shift'],
+             params=[('compare_to_auto(vals + female_shift, weights)[0]', 'OQ', 'f_stat'),
+                     ('compare_to_auto(vals + female_shift, weights)[1]', 'Q', 'f_med_diff'),
+                     ('compare_to_auto(vals + male_shift, weights)[0]', 'Q', 'm_stat'),
+                     ('compare_to_auto(vals + male_shift, weights)[1]', 'Q', 'm_med_diff'),
+                     ('male_stat is not None', 'B', 'm_some')],
+             ret='Q'),
     ]),
 }
